@@ -106,3 +106,62 @@ pub fn mutate_lines(rng: &mut Rng, s: &str, edits: usize, pool: usize) -> String
     }
     lines.concat()
 }
+
+/// Long "runny" text pairs: more than 100 tokens for every tokenizer, made of runs of repeated
+/// symbols over a tiny alphabet (run lengths 1..40), the second text derived from the first by a
+/// few single-symbol edits that prefer run boundaries (one more / one fewer repetition, a foreign
+/// symbol in front of a run).
+pub fn runny_pair(rng: &mut Rng) -> (String, String) {
+    let alphabets: [&[&str]; 7] = [
+        &["a", "b"],
+        &["a ", "b "],
+        &["a\n", "\n"],
+        &["a", " ", "\n", "b"],
+        &["x\n", "y\n", "\n"],
+        &["a ", "\n", "b\r\n"],
+        &["\u{e9}", " ", "a"],
+    ];
+    let al = alphabets[rng.below(alphabets.len())];
+    let lens = [1usize, 1, 1, 2, 3, 5, 17, 18, 24, 40];
+    let target = rng.range(110, 300);
+    let mut a: Vec<usize> = vec![];
+    let mut bounds: Vec<usize> = vec![0];
+    let mut last = usize::MAX;
+    while a.len() < target {
+        let mut sy = rng.below(al.len());
+        if sy == last {
+            sy = (sy + 1) % al.len();
+        }
+        last = sy;
+        for _ in 0..lens[rng.below(lens.len())] {
+            a.push(sy);
+        }
+        bounds.push(a.len());
+    }
+    let mut b = a.clone();
+    for _ in 0..rng.range(1, 4) {
+        if b.is_empty() {
+            break;
+        }
+        let p = if rng.chance(2, 3) { (*rng.pick(&bounds)).min(b.len()) } else { rng.below(b.len() + 1) };
+        match rng.below(4) {
+            0 if p < b.len() => {
+                b.remove(p);
+            }
+            1 if p < b.len() => {
+                let v = b[p];
+                b.insert(p, v); // one more repetition in front of the run
+            }
+            2 if p > 0 => {
+                b.remove(p - 1);
+            }
+            _ => b.insert(p, rng.below(al.len())),
+        }
+    }
+    let cat = |v: &Vec<usize>| -> String { v.iter().map(|&i| al[i]).collect() };
+    if rng.chance(1, 2) {
+        (cat(&a), cat(&b))
+    } else {
+        (cat(&b), cat(&a))
+    }
+}
